@@ -1,3 +1,6 @@
 import MiniconfVerif.Props.C01
 #print axioms MiniconfVerif.C01.failed_access_changes_nothing
 #print axioms MiniconfVerif.C01.read_never_modifies
+#print axioms MiniconfVerif.C01.at_most_one_leaf_changes
+#print axioms MiniconfVerif.C01.read_after_write
+#print axioms MiniconfVerif.C01.chain_equivalent
